@@ -321,7 +321,15 @@ def _limit_worker_memory():
     """A library call that builds an ever-growing structure (a change under test may do that) ends in MemoryError in the
     worker instead of exhausting the machine."""
     import resource
-    lim = 6 * 1024 ** 3
+    # relative to what the forked worker already maps (a thorough run forks from a large parent): 12 GB of headroom
+    vm = 0
+    try:
+        for line in open("/proc/self/status"):
+            if line.startswith("VmSize:"):
+                vm = int(line.split()[1]) * 1024
+    except OSError:
+        pass
+    lim = vm + 12 * 1024 ** 3
     try:
         resource.setrlimit(resource.RLIMIT_AS, (lim, lim))
     except (ValueError, OSError):
